@@ -58,7 +58,20 @@ def gen(rng):
     order = rng.choice([['e:1', 'b:1', 'u:1', 'e:2', 'c:1'], ['b:1', 'u:1', 'e:1', 'c:1', 'e:2'], ['b:1', 'u:1', 'c:1'], ['e:2', 'c:1', 'b:1', 'e:1']])
     vers = {'e:1': ve, 'e:2': ve2}
     ops = [multi.add_op(W, [s], vers.get(s, v)) for s in order]
-    for ex in (None, '', 'e:1', 'e:1 u:1', '*', 'u:1'):
+    exps = [None, '', 'e:1', 'e:1 u:1', '*', 'u:1']
+    if rng.random() < 0.5:
+        # the expand lexicon is another version of L itself: same synset ids and ILIs, more relations
+        import copy
+        L2 = copy.deepcopy(L)
+        L2['version'] = '2'
+        L2.pop('requires', None)
+        ys2 = L2['synsets']
+        for i, y in enumerate(ys2[:-1]):
+            y.setdefault('relations', []).append({'target': ys2[i + 1]['id'], 'relType': 'hypernym', 'meta': None})
+        W['b:2'] = L2
+        ops.append(multi.add_op(W, ['b:2'], v))
+        exps += ['b:2', 'e:1 b:2']
+    for ex in exps:
         op = {'k': 'battery', 'lexicon': 'b:1'}
         if ex is not None:
             op['expand'] = ex
